@@ -5,7 +5,7 @@
 
 From Coq Require Import List Bool Arith NArith Lia Permutation.
 From AMV Require Import Base.ListSet Model.Schema Model.Resolver Model.Machine
-  Spec.C01 Spec.C05 Spec.C07.
+  Spec.C01 Spec.C05 Spec.C07 Spec.C05b Spec.C05d.
 Import ListNotations.
 
 (* ------------------------------------------------------------------ *)
@@ -2117,11 +2117,9 @@ Proof.
 Qed.
 
 (* ------------------------------------------------------------------ *)
-(* final handlers                                                      *)
+(* every negotiation event of a completed phase was dispatched to      *)
+(* every binding (or vetoed)                                           *)
 (* ------------------------------------------------------------------ *)
-
-Definition fkey (t : tstate) (x : nat) : hkey :=
-  if mem x (t_enters t) then HState x else HEnd x.
 
 Lemma count_key_app : forall a b k i, count_key (a ++ b) k i = count_key a k i + count_key b k i.
 Proof. intros a b k i. unfold count_key. rewrite filter_app, app_length. reflexivity. Qed.
@@ -2137,6 +2135,541 @@ Proof.
     + destruct (hl_binding h =? i); cbn [length]; rewrite IH; reflexivity.
     + exact IH.
 Qed.
+
+Definition vetoed (k : hkey) (new : list hlentry) : Prop :=
+  exists h, In h new /\ hl_key h = k /\ hl_ret h = false.
+
+Definition consulted (bs : list (list hkey)) (new : list hlentry) (k : hkey) : Prop :=
+  vetoed k new \/ forall i, count_key new k i = (if defines bs i k then 1 else 0).
+
+Definition keysin (P : hkey -> Prop) (new : list hlentry) : Prop :=
+  Forall (fun h => P (hl_key h)) new.
+
+Definition cons_on (bs : list (list hkey)) (P : hkey -> Prop) (new : list hlentry) : Prop :=
+  forall k, P k -> consulted bs new k.
+
+Lemma keysin_weaken : forall (P Q : hkey -> Prop) new,
+  (forall k, P k -> Q k) -> keysin P new -> keysin Q new.
+Proof. intros P Q new H K. eapply Forall_impl; [|exact K]. intros h. apply H. Qed.
+
+Lemma keysin_app : forall P a b, keysin P a -> keysin P b -> keysin P (a ++ b).
+Proof. intros P a b Ha Hb. apply Forall_app. split; assumption. Qed.
+
+Lemma cons_on_weaken : forall bs (P Q : hkey -> Prop) new,
+  (forall k, Q k -> P k) -> cons_on bs P new -> cons_on bs Q new.
+Proof. intros bs P Q new H C k Hk. apply C. apply H. exact Hk. Qed.
+
+Lemma count_key_notin : forall (P : hkey -> Prop) new k i,
+  keysin P new -> ~ P k -> count_key new k i = 0.
+Proof.
+  intros P new k i K Hn. unfold count_key. induction K as [|h r Hh Hr IH]; [reflexivity|].
+  cbn [filter]. destruct (hkey_eqb (hl_key h) k) eqn:E.
+  - apply hkey_eqb_eq in E. subst k. contradiction.
+  - cbn [andb]. exact IH.
+Qed.
+
+Lemma vetoed_app : forall k a b, vetoed k a \/ vetoed k b -> vetoed k (a ++ b).
+Proof.
+  intros k a b [(h & Hh & R)|(h & Hh & R)]; exists h; (split; [|exact R]); apply in_or_app; tauto.
+Qed.
+
+Lemma cons_pad_l : forall bs (P Q : hkey -> Prop) n m,
+  cons_on bs P n -> keysin Q m -> (forall k, P k -> ~ Q k) -> cons_on bs P (m ++ n).
+Proof.
+  intros bs P Q n m C K D k Hk. destruct (C k Hk) as [V|Cn].
+  - left. apply vetoed_app. right. exact V.
+  - right. intros i. rewrite count_key_app, Cn, (count_key_notin Q m k i K (D k Hk)). reflexivity.
+Qed.
+
+Lemma cons_pad_r : forall bs (P Q : hkey -> Prop) n m,
+  cons_on bs P n -> keysin Q m -> (forall k, P k -> ~ Q k) -> cons_on bs P (n ++ m).
+Proof.
+  intros bs P Q n m C K D k Hk. destruct (C k Hk) as [V|Cn].
+  - left. apply vetoed_app. left. exact V.
+  - right. intros i. rewrite count_key_app, Cn, (count_key_notin Q m k i K (D k Hk)). lia.
+Qed.
+
+Lemma cons_app : forall bs (P1 P2 : hkey -> Prop) n1 n2,
+  keysin P1 n1 -> keysin P2 n2 -> (forall k, P1 k -> ~ P2 k) ->
+  cons_on bs P1 n1 -> cons_on bs P2 n2 ->
+  keysin (fun k => P1 k \/ P2 k) (n2 ++ n1) /\ cons_on bs (fun k => P1 k \/ P2 k) (n2 ++ n1).
+Proof.
+  intros bs P1 P2 n1 n2 K1 K2 D C1 C2. split.
+  - apply keysin_app; [eapply keysin_weaken; [|exact K2] | eapply keysin_weaken; [|exact K1]];
+      intros k Hk; tauto.
+  - intros k [Hk|Hk].
+    + apply (cons_pad_l bs P1 P2 n1 n2 C1 K2 D k Hk).
+    + apply (cons_pad_r bs P2 P1 n2 n1 C2 K1); [|exact Hk].
+      intros k' H2 H1. exact (D k' H1 H2).
+Qed.
+
+Lemma cons_on_nil_false : forall bs, cons_on bs (fun _ => False) [].
+Proof. intros bs k []. Qed.
+
+Lemma handle_event : forall s t k s1 t1 ok,
+  good s -> t_invalid t = false -> is_final_key k = false -> handle s t k = (s1, t1, ok) ->
+  exists n1, hlog s1 = n1 ++ hlog s /\ keysin (fun k' => k = k') n1 /\
+    cons_on (bindings s) (fun k' => k = k') n1 /\ (ok = true \/ vetoed k n1).
+Proof.
+  intros s t k s1 t1 ok G Hinv Hf H.
+  destruct (handle_ff _ _ _ _ _ _ G Hinv H) as (_ & _ & _ & _ & n1 & L & En & _ & V & Cn).
+  exists n1. split; [exact L|].
+  assert (Hk : Forall (fun h => hl_key h = k) n1).
+  { eapply Forall_impl; [|exact En]. intros h (Y & _). exact Y. }
+  split; [eapply Forall_impl; [|exact Hk]; intros h Y; symmetry; exact Y|].
+  assert (Hv : ok = false -> vetoed k n1).
+  { intros ->. destruct (V Hf) as [[Hx _]|[_ (e & rest & -> & Hr & _)]]; [discriminate|].
+    exists e. split; [left; reflexivity|]. split; [|exact Hr].
+    inversion Hk; assumption. }
+  split.
+  - intros k' <-. destruct ok.
+    + right. intros i. rewrite (count_key_same n1 k k i Hk), hkey_eqb_refl. apply Cn. reflexivity.
+    + left. apply Hv. reflexivity.
+  - destruct ok; [left; reflexivity | right; apply Hv; reflexivity].
+Qed.
+
+Lemma without_other : forall l x a, In a l -> ~ In a (without l x) -> a = x.
+Proof.
+  induction l as [|y r IH]; intros x a Hin Hn; [contradiction|].
+  cbn in Hn. destruct (Nat.eqb x y) eqn:E.
+  - apply Nat.eqb_eq in E. subst y. destruct Hin as [->|Hin]; [reflexivity | contradiction].
+  - destruct Hin as [->|Hin].
+    + exfalso. apply Hn. left. reflexivity.
+    + apply IH with (1 := Hin). intros Hx. apply Hn. right. exact Hx.
+Qed.
+
+Lemma NoDup_without : forall l x, NoDup l -> NoDup (without l x).
+Proof.
+  intros l x H. induction H as [|y r Hn Hr IH]; [constructor|].
+  cbn. destruct (Nat.eqb x y); [exact Hr|].
+  constructor; [|exact IH]. intros Hin. apply Hn. eapply without_incl. exact Hin.
+Qed.
+
+Lemma In_map_inj : forall (f : nat -> hkey) l x,
+  (forall a b, f a = f b -> a = b) -> In (f x) (map f l) -> In x l.
+Proof.
+  intros f l x Hf H. apply in_map_iff in H. destruct H as (y & Hy & Hin).
+  apply Hf in Hy. subst y. exact Hin.
+Qed.
+
+(* one loop iteration followed by the rest of the loop *)
+Lemma loop_step : forall bs k0 (P2 : hkey -> Prop) n1 n2,
+  keysin (fun k => k0 = k) n1 -> cons_on bs (fun k => k0 = k) n1 ->
+  ~ P2 k0 -> keysin P2 n2 -> cons_on bs P2 n2 ->
+  keysin (fun k => k0 = k \/ P2 k) (n2 ++ n1) /\ cons_on bs (fun k => k0 = k \/ P2 k) (n2 ++ n1).
+Proof.
+  intros bs k0 P2 n1 n2 K1 C1 Hn K2 C2.
+  apply cons_app; try assumption. intros k <-. exact Hn.
+Qed.
+
+(* the target only loses what a phase may delete *)
+Definition del_ok (t t' : tstate) (Q : nat -> Prop) : Prop :=
+  (forall a, In a (t_target t) -> ~ In a (t_target t') -> Q a) /\
+  (NoDup (t_target t) -> NoDup (t_target t')).
+
+Lemma del_ok_refl : forall t Q, del_ok t t Q.
+Proof. intros t Q. split; [intros a H Hn; contradiction | tauto]. Qed.
+
+Lemma del_ok_step : forall t t' x (Q : nat -> Prop),
+  del_ok (with_target t (delete_state (t_target t) x)) t' Q -> Q x -> del_ok t t' Q.
+Proof.
+  intros t t' x Q [D1 D2] Hx. split.
+  - intros a Ha Hn. destruct (in_dec Nat.eq_dec a (without (t_target t) x)) as [Hw|Hw].
+    + apply D1; [exact Hw | exact Hn].
+    + rewrite (without_other _ _ _ Ha Hw). exact Hx.
+  - intros Hnd. apply D2. cbn. apply NoDup_without. exact Hnd.
+Qed.
+
+Lemma del_ok_weaken : forall t t' (Q Q' : nat -> Prop),
+  (forall a, Q a -> Q' a) -> del_ok t t' Q -> del_ok t t' Q'.
+Proof. intros t t' Q Q' H [D1 D2]. split; [intros a Ha Hn; apply H; eapply D1; eassumption | exact D2]. Qed.
+
+Lemma emit_exits_cons : forall l s t s' t',
+  good s -> t_invalid t = false -> NoDup l -> emit_exits s t l = (s', t', NOk) ->
+  forall new, hlog s' = new ++ hlog s ->
+    keysin (fun k => In k (map HExit l)) new /\
+    cons_on (bindings s) (fun k => In k (map HExit l)) new /\
+    del_ok t t' (fun a => In a l).
+Proof.
+  induction l as [|x r IH]; intros s t s' t' G Hinv Hnd H new L.
+  - simpl in H. inversion H; subst. change (hlog s') with ([] ++ hlog s') in L at 1.
+    apply app_inv_tail in L. subst new. split; [constructor|]. split; [intros k []|].
+    apply del_ok_refl.
+  - inversion Hnd as [|? ? Hx Hr]; subst.
+    cbn [emit_exits] in H. destruct (handle s t (HExit x)) as [[s1 t1] ok] eqn:Eh.
+    destruct (handle_event s t (HExit x) _ _ _ G Hinv eq_refl Eh) as (n1 & L1 & K1 & C1 & Hov).
+    destruct (handle_nbase _ _ _ _ _ _ 0 G Hinv Eh eq_refl) as (-> & Hh & n1' & B & _).
+    rewrite Hh in H. destruct B as (K & G1 & _).
+    assert (Hcont : forall tt, emit_exits s1 tt r = (s', t', NOk) -> t_invalid tt = false ->
+      keysin (fun k => In k (map HExit (x :: r))) new /\
+      cons_on (bindings s) (fun k => In k (map HExit (x :: r))) new /\
+      del_ok tt t' (fun a => In a r)).
+    { intros tt Hr' Hi.
+      destruct (nspec_log _ _ _ _ _ _ _ _ (emit_exits_ff _ _ _ _ _ _ G1 Hi Hr')) as (n2 & L2 & _).
+      assert (new = n2 ++ n1).
+      { rewrite L2, L1, app_assoc in L. apply app_inv_tail in L. symmetry. exact L. }
+      subst new.
+      destruct (IH _ _ _ _ G1 Hi Hr Hr' n2 L2) as (K2 & C2 & D2).
+      rewrite (keeps_bindings _ _ K) in C2.
+      destruct (loop_step (bindings s) (HExit x) (fun k => In k (map HExit r)) n1 n2 K1 C1)
+        as [Ka Ca]; try assumption.
+      { intros Hin. apply Hx. apply (In_map_inj HExit); [intros a b E; inversion E; reflexivity | exact Hin]. }
+      split; [exact Ka|]. split; [exact Ca | exact D2]. }
+    destruct ok.
+    + destruct (Hcont t H Hinv) as (Ka & Ca & Da). split; [exact Ka|]. split; [exact Ca|].
+      eapply del_ok_weaken; [|exact Da]. intros a Ha. right. exact Ha.
+    + destruct (mu_auto (t_mut t) && is_auto_state s x); [|inversion H].
+      destruct (mem x (t_target t)); [|inversion H].
+      destruct (Hcont _ H Hinv) as (Ka & Ca & Da). split; [exact Ka|]. split; [exact Ca|].
+      eapply del_ok_step; [eapply del_ok_weaken; [|exact Da]; intros a Ha; right; exact Ha|].
+      left. reflexivity.
+Qed.
+
+Lemma emit_enters_cons : forall l s t s' t',
+  good s -> t_invalid t = false -> NoDup l -> emit_enters s t l = (s', t', NOk) ->
+  forall new, hlog s' = new ++ hlog s ->
+    keysin (fun k => In k (map HEnter l)) new /\
+    cons_on (bindings s) (fun k => In k (map HEnter l)) new /\
+    del_ok t t' (fun a => vetoed (HEnter a) new).
+Proof.
+  induction l as [|x r IH]; intros s t s' t' G Hinv Hnd H new L.
+  - simpl in H. inversion H; subst. change (hlog s') with ([] ++ hlog s') in L at 1.
+    apply app_inv_tail in L. subst new. split; [constructor|]. split; [intros k []|].
+    apply del_ok_refl.
+  - inversion Hnd as [|? ? Hx Hr]; subst.
+    cbn [emit_enters] in H. destruct (handle s t (HEnter x)) as [[s1 t1] ok] eqn:Eh.
+    destruct (handle_event s t (HEnter x) _ _ _ G Hinv eq_refl Eh) as (n1 & L1 & K1 & C1 & Hov).
+    destruct (handle_nbase _ _ _ _ _ _ 1 G Hinv Eh eq_refl) as (-> & Hh & n1' & B & _).
+    rewrite Hh in H. destruct B as (K & G1 & _).
+    assert (Hcont : forall tt, emit_enters s1 tt r = (s', t', NOk) -> t_invalid tt = false ->
+      exists n2, new = n2 ++ n1 /\
+      keysin (fun k => In k (map HEnter (x :: r))) new /\
+      cons_on (bindings s) (fun k => In k (map HEnter (x :: r))) new /\
+      del_ok tt t' (fun a => vetoed (HEnter a) new)).
+    { intros tt Hr' Hi.
+      destruct (nspec_log _ _ _ _ _ _ _ _ (emit_enters_ff _ _ _ _ _ _ G1 Hi Hr')) as (n2 & L2 & _).
+      assert (new = n2 ++ n1).
+      { rewrite L2, L1, app_assoc in L. apply app_inv_tail in L. symmetry. exact L. }
+      subst new. exists n2. split; [reflexivity|].
+      destruct (IH _ _ _ _ G1 Hi Hr Hr' n2 L2) as (K2 & C2 & D2).
+      rewrite (keeps_bindings _ _ K) in C2.
+      destruct (loop_step (bindings s) (HEnter x) (fun k => In k (map HEnter r)) n1 n2 K1 C1)
+        as [Ka Ca]; try assumption.
+      { intros Hin. apply Hx. apply (In_map_inj HEnter); [intros a b E; inversion E; reflexivity | exact Hin]. }
+      split; [exact Ka|]. split; [exact Ca|].
+      eapply del_ok_weaken; [|exact D2]. intros a Ha. apply vetoed_app. left. exact Ha. }
+    destruct ok.
+    + destruct (Hcont t H Hinv) as (n2 & _ & Ka & Ca & Da). tauto.
+    + destruct (mu_auto (t_mut t) && is_auto_state s x); [|inversion H].
+      destruct (mem x (t_target t)); [|inversion H].
+      destruct (Hcont _ H Hinv) as (n2 & -> & Ka & Ca & Da). split; [exact Ka|]. split; [exact Ca|].
+      eapply del_ok_step; [exact Da|]. apply vetoed_app. right.
+      destruct Hov as [Hx'|Hx']; [discriminate | exact Hx'].
+Qed.
+
+Definition is_self (k : hkey) : bool := match k with HSelf _ => true | _ => false end.
+
+Lemma emit_selfs_keys : forall fuel s t arr i last s' t' nr,
+  good s -> t_invalid t = false -> emit_selfs fuel s t arr i last = (s', t', nr) ->
+  forall new, hlog s' = new ++ hlog s ->
+    keysin (fun k => is_self k = true) new /\ del_ok t t' (fun a => In a (active s)).
+Proof.
+  induction fuel as [|f IH]; intros s t arr i last s' t' nr G Hinv H new L.
+  - simpl in H. inversion H; subst. change (hlog s') with ([] ++ hlog s') in L at 1.
+    apply app_inv_tail in L. subst new. split; [constructor | apply del_ok_refl].
+  - cbn [emit_selfs] in H. destruct (nth_error arr i) as [[x|]|].
+    + destruct (negb (is_active s x)) eqn:Eact; [eapply IH; eassumption|].
+      destruct (handle s t (HSelf x)) as [[s1 t1] ok] eqn:Eh.
+      destruct (handle_event s t (HSelf x) _ _ _ G Hinv eq_refl Eh) as (n1 & L1 & K1 & _ & _).
+      destruct (handle_nbase _ _ _ _ _ _ 2 G Hinv Eh eq_refl) as (-> & Hh & n1' & B & _).
+      rewrite Hh in H. destruct B as (K & G1 & _).
+      assert (K1' : keysin (fun k => is_self k = true) n1).
+      { eapply keysin_weaken; [|exact K1]. intros k <-. reflexivity. }
+      assert (Hxa : In x (active s)).
+      { apply negb_false_iff in Eact. apply mem_In. exact Eact. }
+      assert (Hcont : forall tt arr' l', emit_selfs f s1 tt arr' (S i) l' = (s', t', nr) ->
+        t_invalid tt = false ->
+        keysin (fun k => is_self k = true) new /\ del_ok tt t' (fun a => In a (active s))).
+      { intros tt arr' l' Hr' Hi.
+        destruct (nspec_log _ _ _ _ _ _ _ _ (emit_selfs_ff _ _ _ _ _ _ _ _ _ G1 Hi Hr')) as (n2 & L2 & _).
+        assert (new = n2 ++ n1).
+        { rewrite L2, L1, app_assoc in L. apply app_inv_tail in L. symmetry. exact L. }
+        subst new. destruct (IH _ _ _ _ _ _ _ _ G1 Hi Hr' n2 L2) as (K2 & D2).
+        split; [apply keysin_app; assumption|].
+        rewrite (keeps_active _ _ K) in D2. exact D2. }
+      assert (Hstop : s' = s1 -> t' = t ->
+        keysin (fun k => is_self k = true) new /\ del_ok t t' (fun a => In a (active s))).
+      { intros -> ->. rewrite L1 in L. apply app_inv_tail in L. subst new.
+        split; [exact K1' | apply del_ok_refl]. }
+      destruct ok; [apply (Hcont _ _ _ H Hinv)|].
+      destruct (mu_auto (t_mut t) && is_auto_state s x).
+      * destruct (mem x (t_target t)).
+        -- destruct (Hcont _ _ _ H Hinv) as (Ka & Da). split; [exact Ka|].
+           eapply del_ok_step; [exact Da | exact Hxa].
+        -- inversion H; subst. apply Hstop; reflexivity.
+      * inversion H; subst. apply Hstop; reflexivity.
+    + eapply IH; eassumption.
+    + inversion H; subst. change (hlog s') with ([] ++ hlog s') in L at 1.
+      apply app_inv_tail in L. subst new. split; [constructor | apply del_ok_refl].
+Qed.
+
+Definition tkeys (b : nat) (after : list nat) : list hkey :=
+  map (HTrans b) (filter (fun a => negb (Nat.eqb b a)) after).
+
+Lemma emit_trans_inner_cons : forall after s t b s' t',
+  good s -> t_invalid t = false -> NoDup after ->
+  emit_trans_inner s t b after = (s', t', NOk) ->
+  forall new, hlog s' = new ++ hlog s ->
+    keysin (fun k => In k (tkeys b after)) new /\
+    cons_on (bindings s) (fun k => In k (tkeys b after)) new.
+Proof.
+  induction after as [|a r IH]; intros s t b s' t' G Hinv Hnd H new L.
+  - simpl in H. inversion H; subst. change (hlog s') with ([] ++ hlog s') in L at 1.
+    apply app_inv_tail in L. subst new. split; [constructor | intros k []].
+  - inversion Hnd as [|? ? Ha Hr]; subst.
+    cbn [emit_trans_inner] in H. unfold tkeys. cbn [filter].
+    destruct (Nat.eqb b a) eqn:Eba; cbn [negb].
+    + apply (IH _ _ _ _ _ G Hinv Hr H new L).
+    + destruct (handle s t (HTrans b a)) as [[s1 t1] ok] eqn:Eh.
+      destruct (handle_event s t (HTrans b a) _ _ _ G Hinv eq_refl Eh) as (n1 & L1 & K1 & C1 & Hov).
+      destruct (handle_nbase _ _ _ _ _ _ 2 G Hinv Eh eq_refl) as (-> & Hh & n1' & B & _).
+      rewrite Hh in H. destruct B as (K & G1 & _).
+      assert (Hcont : forall tt, emit_trans_inner s1 tt b r = (s', t', NOk) -> t_invalid tt = false ->
+        keysin (fun k => In k (map (HTrans b) (a :: filter (fun a0 => negb (Nat.eqb b a0)) r))) new /\
+        cons_on (bindings s)
+          (fun k => In k (map (HTrans b) (a :: filter (fun a0 => negb (Nat.eqb b a0)) r))) new).
+      { intros tt Hr' Hi.
+        destruct (nspec_log _ _ _ _ _ _ _ _ (emit_trans_inner_ff _ _ _ _ _ _ _ G1 Hi Hr')) as (n2 & L2 & _).
+        assert (new = n2 ++ n1).
+        { rewrite L2, L1, app_assoc in L. apply app_inv_tail in L. symmetry. exact L. }
+        subst new.
+        destruct (IH _ _ _ _ _ G1 Hi Hr Hr' n2 L2) as (K2 & C2).
+        rewrite (keeps_bindings _ _ K) in C2.
+        destruct (loop_step (bindings s) (HTrans b a) (fun k => In k (tkeys b r)) n1 n2 K1 C1)
+          as [Ka Ca]; try assumption.
+        { intros Hin. unfold tkeys in Hin. apply in_map_iff in Hin.
+          destruct Hin as (y & Ey & Hy). inversion Ey; subst y. apply filter_In in Hy. tauto. }
+        split; [exact Ka | exact Ca]. }
+      destruct ok; [apply (Hcont t H Hinv)|].
+      destruct (mu_auto (t_mut t) && is_auto_state s a); [|inversion H].
+      apply (Hcont _ H Hinv).
+Qed.
+
+Definition allt (before after : list nat) : list hkey := flat_map (fun b => tkeys b after) before.
+
+Lemma emit_trans_cons : forall before after s t s' t',
+  good s -> t_invalid t = false -> NoDup before -> NoDup after ->
+  emit_trans s t before after = (s', t', NOk) ->
+  forall new, hlog s' = new ++ hlog s ->
+    keysin (fun k => In k (allt before after)) new /\
+    cons_on (bindings s) (fun k => In k (allt before after)) new.
+Proof.
+  induction before as [|b r IH]; intros after s t s' t' G Hinv Hndb Hnda H new L.
+  - simpl in H. inversion H; subst. change (hlog s') with ([] ++ hlog s') in L at 1.
+    apply app_inv_tail in L. subst new. split; [constructor | intros k []].
+  - inversion Hndb as [|? ? Hb Hr]; subst.
+    cbn [emit_trans] in H.
+    destruct (emit_trans_inner s t b after) as [[s1 t1] nr1] eqn:Ei.
+    pose proof (emit_trans_inner_ff _ _ _ _ _ _ _ G Hinv Ei) as N1.
+    destruct (nspec_inv _ _ _ _ _ _ _ _ N1) as [G1 Hinv1]. rewrite Hinv in Hinv1.
+    destruct (nspec_log _ _ _ _ _ _ _ _ N1) as (n1 & L1 & _).
+    destruct nr1; [|inversion H|inversion H].
+    destruct (emit_trans_inner_cons _ _ _ _ _ _ G Hinv Hnda Ei n1 L1) as (K1 & C1).
+    destruct (nspec_log _ _ _ _ _ _ _ _ (emit_trans_ff _ _ _ _ _ _ _ G1 Hinv1 H)) as (n2 & L2 & _).
+    assert (new = n2 ++ n1).
+    { rewrite L2, L1, app_assoc in L. apply app_inv_tail in L. symmetry. exact L. }
+    subst new.
+    destruct (IH _ _ _ _ _ G1 Hinv1 Hr Hnda H n2 L2) as (K2 & C2).
+    assert (Hb1 : bindings s1 = bindings s).
+    { destruct N1 as (? & B & _). destruct B as (K & _). apply (keeps_bindings _ _ K). }
+    rewrite Hb1 in C2.
+    destruct (cons_app (bindings s) (fun k => In k (tkeys b after)) (fun k => In k (allt r after))
+                n1 n2 K1 K2) as [Ka Ca]; try assumption.
+    { intros k Hk1 Hk2. unfold tkeys in Hk1. apply in_map_iff in Hk1. destruct Hk1 as (a & <- & _).
+      unfold allt in Hk2. apply in_flat_map in Hk2. destruct Hk2 as (b' & Hb' & Hk2).
+      unfold tkeys in Hk2. apply in_map_iff in Hk2. destruct Hk2 as (a' & E & _).
+      inversion E; subst b'. contradiction. }
+    unfold allt. cbn [flat_map]. split.
+    + eapply keysin_weaken; [|exact Ka]. intros k Hk. apply in_or_app. exact Hk.
+    + eapply cons_on_weaken; [|exact Ca]. intros k Hk. apply in_app_or in Hk. exact Hk.
+Qed.
+
+
+Lemma nspec_frame : forall last lo hi s t s' t' nr,
+  nspecL last lo hi s t s' t' nr ->
+  good s' /\ t_invalid t' = t_invalid t /\ bindings s' = bindings s /\ active s' = active s /\
+  t_before t' = t_before t /\ t_enters t' = t_enters t /\ t_exits t' = t_exits t /\
+  t_mut t' = t_mut t.
+Proof.
+  intros last lo hi s t s' t' nr (new & B & _).
+  destruct B as (K & G & _ & (T1 & T2 & _ & T4 & T5 & _ & T7 & _) & _).
+  split; [exact G|]. split; [exact T7|]. split; [apply (keeps_bindings _ _ K)|].
+  split; [apply (keeps_active _ _ K)|]. tauto.
+Qed.
+
+Lemma nspec_A : forall lo hi s t s' t' nr,
+  nspecL true lo hi s t s' t' nr ->
+  forall new, hlog s' = new ++ hlog s -> Forall rettrue new -> t_target t' = t_target t.
+Proof.
+  intros lo hi s t s' t' nr (n & B & A & _) new L Hall.
+  destruct B as (_ & _ & _ & _ & L' & _). rewrite L' in L. apply app_inv_tail in L. subst n.
+  apply (A eq_refl Hall).
+Qed.
+
+Lemma selfs_trans_cons : forall fuel s2 t2 arr i s3 t3 s' t',
+  good s2 -> t_invalid t2 = false -> NoDup (t_before t2) -> NoDup (t_target t2) ->
+  emit_selfs fuel s2 t2 arr i true = (s3, t3, NOk) ->
+  emit_trans s3 t3 (t_before t3) (t_target t3) = (s', t', NOk) ->
+  forall new, hlog s' = new ++ hlog s2 ->
+  exists tgt3,
+    (forall a, In a (t_target t2) -> ~ In a tgt3 -> In a (active s2)) /\
+    (Forall rettrue new -> tgt3 = t_target t2) /\
+    keysin (fun k => is_self k = true \/ In k (allt (t_before t2) tgt3)) new /\
+    cons_on (bindings s2) (fun k => In k (allt (t_before t2) tgt3)) new.
+Proof.
+  intros fuel s2 t2 arr i s3 t3 s' t' G2 Hinv2 Hnb Hnt Es Et new L.
+  pose proof (emit_selfs_ff _ _ _ _ _ _ _ _ _ G2 Hinv2 Es) as N3.
+  destruct (nspec_frame _ _ _ _ _ _ _ _ N3) as (G3 & Hinv3 & Hb3 & _ & Hbe3 & _).
+  rewrite Hinv2 in Hinv3.
+  destruct (nspec_log _ _ _ _ _ _ _ _ N3) as (n3 & L3 & _).
+  destruct (emit_selfs_keys _ _ _ _ _ _ _ _ _ G2 Hinv2 Es n3 L3) as (K3 & [D3a D3b]).
+  destruct (nspec_log _ _ _ _ _ _ _ _ (emit_trans_ff _ _ _ _ _ _ _ G3 Hinv3 Et)) as (n4 & L4 & _).
+  assert (new = n4 ++ n3).
+  { rewrite L4, L3, app_assoc in L. apply app_inv_tail in L. symmetry. exact L. }
+  subst new. rewrite Hbe3 in Et.
+  destruct (emit_trans_cons _ _ _ _ _ _ G3 Hinv3 Hnb (D3b Hnt) Et n4 L4) as (K4 & C4).
+  rewrite Hb3 in C4.
+  exists (t_target t3). split; [exact D3a|]. split.
+  { intros Hall. apply Forall_app in Hall. apply (nspec_A _ _ _ _ _ _ _ N3 n3 L3). tauto. }
+  split.
+  - apply keysin_app.
+    + eapply keysin_weaken; [|exact K4]. intros k Hk. right. exact Hk.
+    + eapply keysin_weaken; [|exact K3]. intros k Hk. left. exact Hk.
+  - apply (cons_pad_r _ _ (fun k => is_self k = true) n4 n3 C4 K3).
+    intros k Hk. unfold allt in Hk. apply in_flat_map in Hk. destruct Hk as (b & _ & Hk).
+    unfold tkeys in Hk. apply in_map_iff in Hk. destruct Hk as (a & <- & _). discriminate.
+Qed.
+
+Lemma neg_tail_cons : forall s2 t2 s' t',
+  good s2 -> t_invalid t2 = false -> NoDup (t_before t2) -> NoDup (t_target t2) ->
+  neg_tail s2 t2 = (s', t', NOk) ->
+  forall new, hlog s' = new ++ hlog s2 ->
+  exists tgt3,
+    (forall a, In a (t_target t2) -> ~ In a tgt3 -> In a (active s2)) /\
+    (Forall rettrue new -> tgt3 = t_target t2) /\
+    keysin (fun k => is_self k = true \/ In k (allt (t_before t2) tgt3)) new /\
+    cons_on (bindings s2) (fun k => In k (allt (t_before t2) tgt3)) new.
+Proof.
+  intros s2 t2 s' t' G2 Hinv2 Hnb Hnt H new L. unfold neg_tail in H. cbv zeta in H.
+  destruct (mu_type (t_mut t2)).
+  - destruct (emit_selfs (S (length (t_target t2))) s2 t2 (map Some (t_target t2)) 0 true)
+      as [[s3 t3] nr3] eqn:Es.
+    destruct nr3; [|inversion H|inversion H].
+    eapply selfs_trans_cons; eassumption.
+  - destruct (emit_trans_cons _ _ _ _ _ _ G2 Hinv2 Hnb Hnt H new L) as (K4 & C4).
+    exists (t_target t2). split; [intros a Ha Hn; contradiction|]. split; [reflexivity|].
+    split; [|exact C4].
+    eapply keysin_weaken; [|exact K4]. intros k Hk. right. exact Hk.
+  - destruct (emit_selfs (S (length (t_target t2))) s2 t2 (map Some (t_target t2)) 0 true)
+      as [[s3 t3] nr3] eqn:Es.
+    destruct nr3; [|inversion H|inversion H].
+    eapply selfs_trans_cons; eassumption.
+Qed.
+
+(* the keys consulted by a completed negotiation *)
+Definition negP (t : tstate) (tgt3 : list nat) (k : hkey) : Prop :=
+  In k (map HExit (t_exits t)) \/ In k (map HEnter (t_enters t)) \/
+  In k (allt (t_before t) tgt3).
+
+Definition negc (bs : list (list hkey)) (act : list nat) (t : tstate) (new : list hlentry)
+  : Prop :=
+  exists tgt3,
+    (forall a, In a (t_target t) -> ~ In a tgt3 ->
+       In a (t_exits t) \/ vetoed (HEnter a) new \/ In a act) /\
+    (Forall rettrue new -> tgt3 = t_target t) /\
+    cons_on bs (negP t tgt3) new.
+
+Lemma negotiate_cons : forall s t s' t',
+  good s -> t_invalid t = false ->
+  NoDup (t_exits t) -> NoDup (t_enters t) -> NoDup (t_before t) -> NoDup (t_target t) ->
+  negotiate s t = (s', t', NOk) ->
+  forall new, hlog s' = new ++ hlog s -> negc (bindings s) (active s) t new.
+Proof.
+  intros s t s' t' G Hinv Hnx Hne Hnb Hnt H new L. rewrite negotiate_eq in H.
+  destruct (emit_exits s t (t_exits t)) as [[s1 t1] nr1] eqn:E1.
+  pose proof (emit_exits_ff _ _ _ _ _ _ G Hinv E1) as N1.
+  destruct (nspec_frame _ _ _ _ _ _ _ _ N1) as (G1 & Hinv1 & Hb1 & Ha1 & Hbe1 & Hen1 & _).
+  rewrite Hinv in Hinv1.
+  destruct (nspec_log _ _ _ _ _ _ _ _ N1) as (n1 & L1 & _).
+  destruct nr1; [|inversion H|inversion H].
+  destruct (emit_exits_cons _ _ _ _ _ G Hinv Hnx E1 n1 L1) as (K1 & C1 & [D1a D1b]).
+  destruct (emit_enters s1 t1 (t_enters t1)) as [[s2 t2] nr2] eqn:E2.
+  pose proof (emit_enters_ff _ _ _ _ _ _ G1 Hinv1 E2) as N2.
+  destruct (nspec_frame _ _ _ _ _ _ _ _ N2) as (G2 & Hinv2 & Hb2 & Ha2 & Hbe2 & _).
+  rewrite Hinv1 in Hinv2.
+  destruct (nspec_log _ _ _ _ _ _ _ _ N2) as (n2 & L2 & _).
+  destruct nr2; [|inversion H|inversion H].
+  rewrite Hen1 in E2.
+  destruct (emit_enters_cons _ _ _ _ _ G1 Hinv1 Hne E2 n2 L2) as (K2 & C2 & [D2a D2b]).
+  rewrite Hb1 in C2.
+  assert (Hnb2 : NoDup (t_before t2)) by (rewrite Hbe2, Hbe1; exact Hnb).
+  destruct (nspec_log _ _ _ _ _ _ _ _ (neg_tail_ff _ _ _ _ _ G2 Hinv2 H)) as (n3 & L3 & _).
+  destruct (neg_tail_cons _ _ _ _ G2 Hinv2 Hnb2 (D2b (D1b Hnt)) H n3 L3) as (tgt3 & D3 & A3 & K3 & C3).
+  rewrite Hb2, Hb1 in C3. rewrite Hbe2, Hbe1 in K3, C3. rewrite Ha2, Ha1 in D3.
+  assert (new = n3 ++ n2 ++ n1).
+  { rewrite L3, L2, L1, !app_assoc in L. apply app_inv_tail in L. rewrite <- app_assoc in L.
+    symmetry. exact L. }
+  subst new.
+  destruct (cons_app (bindings s) _ _ n1 n2 K1 K2) as [K12 C12]; try assumption.
+  { intros k Hk1 Hk2. apply in_map_iff in Hk1. destruct Hk1 as (a & <- & _).
+    apply in_map_iff in Hk2. destruct Hk2 as (a' & E & _). discriminate. }
+  exists tgt3. split; [|split].
+  2:{ intros Hall. apply Forall_app in Hall. destruct Hall as [Hall3 Hall].
+      apply Forall_app in Hall. destruct Hall as [Hall2 Hall1].
+      rewrite (A3 Hall3), (nspec_A _ _ _ _ _ _ _ N2 n2 L2 Hall2).
+      apply (nspec_A _ _ _ _ _ _ _ N1 n1 L1 Hall1). }
+  - intros a Ha Hn.
+    destruct (in_dec Nat.eq_dec a (t_target t1)) as [H1|H1]; [|left; apply D1a; assumption].
+    destruct (in_dec Nat.eq_dec a (t_target t2)) as [H2|H2].
+    + right. right. apply D3; assumption.
+    + right. left. apply vetoed_app. right. apply vetoed_app. left. apply D2a; assumption.
+  - intros k [Hk|[Hk|Hk]].
+    + apply (cons_pad_l _ _ (fun k => is_self k = true \/ In k (allt (t_before t) tgt3)) _ n3 C12 K3);
+        [|left; exact Hk].
+      intros k' [Hk'|Hk'] [Hs|Hs].
+      * apply in_map_iff in Hk'. destruct Hk' as (a & <- & _). discriminate.
+      * apply in_map_iff in Hk'. destruct Hk' as (a & <- & _).
+        unfold allt in Hs. apply in_flat_map in Hs. destruct Hs as (b & _ & Hs).
+        unfold tkeys in Hs. apply in_map_iff in Hs. destruct Hs as (a' & E & _). discriminate.
+      * apply in_map_iff in Hk'. destruct Hk' as (a & <- & _). discriminate.
+      * apply in_map_iff in Hk'. destruct Hk' as (a & <- & _).
+        unfold allt in Hs. apply in_flat_map in Hs. destruct Hs as (b & _ & Hs).
+        unfold tkeys in Hs. apply in_map_iff in Hs. destruct Hs as (a' & E & _). discriminate.
+    + apply (cons_pad_l _ _ (fun k => is_self k = true \/ In k (allt (t_before t) tgt3)) _ n3 C12 K3);
+        [|right; exact Hk].
+      intros k' [Hk'|Hk'] [Hs|Hs].
+      * apply in_map_iff in Hk'. destruct Hk' as (a & <- & _). discriminate.
+      * apply in_map_iff in Hk'. destruct Hk' as (a & <- & _).
+        unfold allt in Hs. apply in_flat_map in Hs. destruct Hs as (b & _ & Hs).
+        unfold tkeys in Hs. apply in_map_iff in Hs. destruct Hs as (a' & E & _). discriminate.
+      * apply in_map_iff in Hk'. destruct Hk' as (a & <- & _). discriminate.
+      * apply in_map_iff in Hk'. destruct Hk' as (a & <- & _).
+        unfold allt in Hs. apply in_flat_map in Hs. destruct Hs as (b & _ & Hs).
+        unfold tkeys in Hs. apply in_map_iff in Hs. destruct Hs as (a' & E & _). discriminate.
+    + apply (cons_pad_r _ _ (fun k => In k (map HExit (t_exits t)) \/ In k (map HEnter (t_enters t)))
+               n3 (n2 ++ n1) C3 K12); [|exact Hk].
+      intros k' Hk' [Hs|Hs];
+        unfold allt in Hk'; apply in_flat_map in Hk'; destruct Hk' as (b & _ & Hk');
+        unfold tkeys in Hk'; apply in_map_iff in Hk'; destruct Hk' as (a' & <- & _);
+        apply in_map_iff in Hs; destruct Hs as (a & E & _); discriminate.
+Qed.
+
+(* ------------------------------------------------------------------ *)
+(* final handlers                                                      *)
+(* ------------------------------------------------------------------ *)
+
+Definition fkey (t : tstate) (x : nat) : hkey :=
+  if mem x (t_enters t) then HState x else HEnd x.
 
 Lemma emit_finals_ff : forall l s t s' t' o,
   good s -> t_invalid t = false -> emit_finals s t l = (s', t', o) ->
@@ -2568,17 +3101,52 @@ Lemma tx_anyenter_ff : forall sA s1 t1 c2 s2 t1' c3,
   good s1 -> t_invalid t1 = false -> tx_anyenter sA s1 t1 c2 = (s2, t1', c3) ->
   t1' = t1 /\ exists n2, nbase 2 2 s1 t1 s2 t1 n2 /\
     ((c3 = c2 /\ n2 = [] /\ has_handlers sA && negb c2 = false) \/
-     (c2 = false /\ has_handlers sA = true /\ vshape (negb c3) n2)).
+     (c2 = false /\ has_handlers sA = true /\ vshape (negb c3) n2)) /\
+    keysin (fun k => HAnyEnter = k) n2.
 Proof.
   intros sA s1 t1 c2 s2 t1' c3 G Hinv H. unfold tx_anyenter in H.
   destruct (has_handlers sA && negb c2) eqn:Eh.
   - destruct (handle s1 t1 HAnyEnter) as [[sx tx] ok] eqn:Ehd.
-    destruct (handle_nbase _ _ _ _ _ _ 2 G Hinv Ehd eq_refl) as (-> & _ & n2 & B & _ & V & _).
-    inversion H; subst. split; [reflexivity|]. exists n2. split; [exact B|]. right.
-    apply andb_true_iff in Eh. destruct Eh as [E1 E2]. apply negb_true_iff in E2.
-    split; [exact E2|]. split; [exact E1|]. rewrite negb_involutive. exact (V eq_refl).
+    destruct (handle_nbase _ _ _ _ _ _ 2 G Hinv Ehd eq_refl) as (-> & _ & n2 & B & _ & V & Hk).
+    inversion H; subst. split; [reflexivity|]. exists n2. split; [exact B|]. split.
+    + right.
+      apply andb_true_iff in Eh. destruct Eh as [E1 E2]. apply negb_true_iff in E2.
+      split; [exact E2|]. split; [exact E1|]. rewrite negb_involutive. exact (V eq_refl).
+    + eapply Forall_impl; [|exact Hk]. intros h Y. symmetry. exact Y.
   - inversion H; subst. split; [reflexivity|]. exists []. split; [apply nbase_refl; exact G|].
-    left. tauto.
+    split; [left; tauto | constructor].
+Qed.
+
+Lemma negc_pad : forall bs act t n m,
+  negc bs act t n -> keysin (fun k => is_final_key k = true \/ HAnyEnter = k) m ->
+  negc bs act t (m ++ n).
+Proof.
+  intros bs act t n m (tgt3 & D & A & C) K. exists tgt3. split; [|split].
+  - intros a Ha Hn. destruct (D a Ha Hn) as [Hx|[Hx|Hx]]; [tauto| |tauto].
+    right. left. apply vetoed_app. right. exact Hx.
+  - intros Hall. apply Forall_app in Hall. apply A. tauto.
+  - apply (cons_pad_l _ _ _ _ _ C K).
+    intros k [Hk|[Hk|Hk]] [Hf|Hf].
+    + apply in_map_iff in Hk. destruct Hk as (a & <- & _). discriminate.
+    + apply in_map_iff in Hk. destruct Hk as (a & <- & _). discriminate.
+    + apply in_map_iff in Hk. destruct Hk as (a & <- & _). discriminate.
+    + apply in_map_iff in Hk. destruct Hk as (a & <- & _). discriminate.
+    + unfold allt in Hk. apply in_flat_map in Hk. destruct Hk as (b & _ & Hk).
+      unfold tkeys in Hk. apply in_map_iff in Hk. destruct Hk as (a & <- & _). discriminate.
+    + unfold allt in Hk. apply in_flat_map in Hk. destruct Hk as (b & _ & Hk).
+      unfold tkeys in Hk. apply in_map_iff in Hk. destruct Hk as (a & <- & _). discriminate.
+Qed.
+
+Lemma new_transition_nodup : forall s mu, NoDup (active s) ->
+  NoDup (t_exits (new_transition s mu)) /\ NoDup (t_enters (new_transition s mu)) /\
+  NoDup (t_before (new_transition s mu)) /\ NoDup (t_target (new_transition s mu)).
+Proof.
+  intros s mu Hnd. unfold new_transition.
+  destruct (setup_accepted s mu _); cbn [t_exits t_enters t_before t_target with_exit_enter].
+  - split; [apply sort_states_NoDup; apply NoDup_filter; exact Hnd|].
+    split; [apply NoDup_filter; apply target_states_NoDup|].
+    split; [exact Hnd | apply target_states_NoDup].
+  - split; [constructor|]. split; [constructor|]. split; [exact Hnd | apply target_states_NoDup].
 Qed.
 
 Lemma tx_neg_ff : forall sA t0 s1 t1 nr,
@@ -2587,19 +3155,30 @@ Lemma tx_neg_ff : forall sA t0 s1 t1 nr,
     (Forall rettrue n1 -> nr = NOk /\ t_target t1 = t_target t0) /\
     (mu_auto (t_mut t0) = false -> t_target t1 = t_target t0 /\ nshape nr n1) /\
     (t_accepted t0 = false -> n1 = [] /\ nr = NOk) /\
-    ordn t0 n1.
+    ordn t0 n1 /\
+    (nr = NOk -> t_accepted t0 = true ->
+     NoDup (t_exits t0) -> NoDup (t_enters t0) -> NoDup (t_before t0) -> NoDup (t_target t0) ->
+     negc (bindings sA) (active sA) t0 n1).
 Proof.
   intros sA t0 s1 t1 nr G Hinv H. unfold tx_neg in H.
   destruct (has_handlers sA && negb (negb (t_accepted t0))) eqn:Eh.
   - destruct (negotiate_ff _ _ _ _ _ G Hinv H) as (n1 & B & A & V).
     exists n1. split; [exact B|]. split; [exact (A eq_refl)|]. split; [exact (V eq_refl)|].
-    split.
+    split; [|split].
     + intros Hacc. rewrite Hacc, andb_false_r in Eh. discriminate.
     + eapply negotiate_ord; [exact G | exact Hinv | exact H | apply B].
+    + intros -> _ N1 N2 N3 N4.
+      eapply negotiate_cons; [exact G | exact Hinv | exact N1 | exact N2 | exact N3 | exact N4
+                             | exact H | apply B].
   - inversion H; subst. exists []. split; [apply nbase_refl; exact G|].
-    split; [tauto|]. split; [|split; [tauto|]].
+    split; [tauto|]. split; [|split; [tauto|split]].
     + intros _. split; [reflexivity|]. left. split; [reflexivity | constructor].
     + split; apply srt_sublist_nil_l.
+    + intros _ Hacc _ _ _ _. rewrite Hacc, andb_true_r in Eh.
+      unfold has_handlers in Eh. apply negb_false_iff, Nat.eqb_eq in Eh.
+      exists (t_target t1). split; [intros a Ha Hn; contradiction|]. split; [reflexivity|].
+      intros k _. right. intros i. destruct (bindings s1); [|discriminate].
+      rewrite defines_nil. reflexivity.
 Qed.
 
 Lemma ordn_app_rank2 : forall t n1 n2,
@@ -2631,7 +3210,8 @@ Lemma tx_front : forall s mu s' r, good s -> run_tx s mu = (s', r) ->
        canceled = negb (t_accepted t0)
                   || (has_handlers s && (mu_auto mu && Nat.eqb (length (t_target t0)) 0))) /\
     (canceled = false -> t_accepted t0 = true) /\
-    ordn t0 negs /\
+    (ordn t0 negs /\
+     (canceled = false -> NoDup (active s) -> negc (bindings s) (active s) t0 negs)) /\
     (s', r) = if mu_check mu then tx_check_end mu (length (hlog s)) s2 t1 canceled
               else if negb canceled
                    then tx_apply mu (length (hlog s)) s2 (tx_retarget mu s2 t1)
@@ -2642,7 +3222,7 @@ Proof.
   destruct (new_transition_facts s mu) as (Tm & _ & _ & Tinv & _). fold t0 in Tm, Tinv.
   assert (GA : good sA) by exact G.
   destruct (tx_neg sA t0) as [[s1 t1] nr] eqn:En.
-  destruct (tx_neg_ff _ _ _ _ _ GA Tinv En) as (n1 & B1 & A1 & V1 & S1 & O1).
+  destruct (tx_neg_ff _ _ _ _ _ GA Tinv En) as (n1 & B1 & A1 & V1 & S1 & O1 & Nc1).
   rewrite Tm in V1.
   assert (G1 : good s1) by apply B1.
   assert (Hinv1 : t_invalid t1 = false).
@@ -2656,14 +3236,25 @@ Proof.
                then negb (t_accepted t0) || (mu_auto mu && Nat.eqb (length (t_target t1)) 0)
                else negb (t_accepted t0)) in *.
     destruct (tx_anyenter sA s1 t1 c2) as [[s2 t1'] c3] eqn:Ea.
-    destruct (tx_anyenter_ff _ _ _ _ _ _ _ G1 Hinv1 Ea) as (-> & n2 & B2 & D).
+    destruct (tx_anyenter_ff _ _ _ _ _ _ _ G1 Hinv1 Ea) as (-> & n2 & B2 & D & Kae).
     change (has_handlers sA) with (has_handlers s) in D.
     assert (G2 : good s2) by apply B2.
     assert (Hh2 : hung s2 = false) by apply G2. rewrite Hh2 in H.
     right. exists s2, t1, (n2 ++ n1), c3.
     split; [eapply nbase_seq; [exact B1 | exact B2 | lia | lia | lia]|].
+    assert (F4' : c3 = false -> t_accepted t0 = true).
+    { intros Hc3. destruct D as [(Hx & _ & _)|(Hc & Hhh & _)].
+      - rewrite Hx in Hc3. unfold c2 in Hc3. destruct (has_handlers s).
+        + apply orb_false_iff in Hc3. destruct Hc3 as [Hy _]. apply negb_false_iff in Hy. exact Hy.
+        + apply negb_false_iff in Hc3. exact Hc3.
+      - unfold c2 in Hc. rewrite Hhh in Hc.
+        apply orb_false_iff in Hc. destruct Hc as [Hy _]. apply negb_false_iff in Hy. exact Hy. }
     split; [|split; [|split; [|split; [|symmetry; exact H]]]];
-      [| | |apply ordn_app_rank2; [exact O1 | apply B2]].
+      [| | |split; [apply ordn_app_rank2; [exact O1 | apply B2]|]].
+    4:{ intros Hc3 Hnd. apply negc_pad.
+        - destruct (new_transition_nodup s mu Hnd) as (N1 & N2 & N3 & N4).
+          apply (Nc1 eq_refl (F4' Hc3) N1 N2 N3 N4).
+        - eapply keysin_weaken; [|exact Kae]. intros k Hk. right. exact Hk. }
     + intros Hm. destruct (V1 Hm) as [Ht Hs]. split; [exact Ht|].
       assert (Hall1 : Forall rettrue n1).
       { destruct Hs as [[_ Hx]|[Hx _]]; [exact Hx | discriminate]. }
@@ -2700,7 +3291,8 @@ Proof.
       with true in H by (destruct (has_handlers s); reflexivity).
     unfold tx_anyenter in H. rewrite andb_false_r in H. rewrite Hh1 in H.
     right. exists s1, t1, n1, true.
-    split; [exact B1|]. split; [|split; [|split; [discriminate | split; [exact O1 | symmetry; exact H]]]].
+    split; [exact B1|]. split; [|split; [|split; [discriminate
+      | split; [split; [exact O1 | intros Hx; discriminate] | symmetry; exact H]]]].
     + intros Hm. destruct (V1 Hm) as [Ht Hs]. split; [exact Ht|]. right. split; [reflexivity|].
       right. destruct Hs as [[Hx _]|[_ Hx]]; [discriminate | exact Hx].
     + intros Hall. destruct (A1 Hall) as [Hx _]. discriminate.
@@ -2932,7 +3524,10 @@ Definition tx_outcome (s : st) (mu : mutation) (s' : st) : Prop :=
     hlog s' = fins ++ negs ++ hlog s /\ same_cfg s s' /\ good s' /\
     Forall (negent s) negs /\ bounded 0 2 (map rk (rev negs)) /\
     (sorted_sub (sc s) (topo s) (uniq (pst is_exit (rev negs))) /\
-     sorted_sub (sc s) (topo s) (uniq (pst is_enter (rev negs)))) /\
+     sorted_sub (sc s) (topo s) (uniq (pst is_enter (rev negs))) /\
+     (canceled = false -> NoDup (active s) ->
+      negc (bindings s) (active s) (new_transition s mu) negs) /\
+     (canceled = false -> t_accepted (new_transition s mu) = true)) /\
     incl tgt1 joint /\
     (mu_auto mu = false -> tgt1 = joint /\
        ((canceled = false /\ Forall rettrue negs) \/
@@ -2969,11 +3564,18 @@ Proof.
   destruct (new_transition_facts s mu) as (Tm & Tb & Tcb & Tinv & Ttg & Tacc & Tex).
   destruct (tx_front _ _ _ _ G H)
     as [(s1 & t1 & negs & -> & B & Hm & Hv & On)
-       |(s2 & t1 & negs & canceled & B & F2 & F3 & F4 & On & E)];
+       |(s2 & t1 & negs & canceled & B & F2 & F3 & F4 & [On Nc] & E)];
     apply ordn_sorted_sub in On.
   - (* a panic escaped *)
     destruct B as (K & G1 & Q & T & L & En & Bd).
-    exists negs, [], false, (t_target t1).
+    assert (On' : sorted_sub (sc s) (topo s) (uniq (pst is_exit (rev negs))) /\
+                  sorted_sub (sc s) (topo s) (uniq (pst is_enter (rev negs))) /\
+                  (true = false -> NoDup (active s) ->
+                   negc (bindings s) (active s) (new_transition s mu) negs) /\
+                  (true = false -> t_accepted (new_transition s mu) = true)).
+    { split; [apply On|]. split; [apply On|]. split; intros Hx; discriminate. }
+    clear On. rename On' into On.
+    exists negs, [], true, (t_target t1).
     split; [cbn; exact L|]. split; [apply keeps_same_cfg in K; exact K|]. split; [exact G1|].
     split; [exact En|]. split; [exact Bd|]. split; [exact On|].
     split; [rewrite <- Ttg; apply T|].
@@ -2982,6 +3584,13 @@ Proof.
     split; [exact Hm|]. split; [exact Hv|]. split; [exact Q|].
     split; [cbn; apply (keeps_clock _ _ K) | cbn; apply (keeps_active _ _ K)].
   - destruct B as (K & G2 & Q & T & L & En & Bd).
+    assert (On' : sorted_sub (sc s) (topo s) (uniq (pst is_exit (rev negs))) /\
+                  sorted_sub (sc s) (topo s) (uniq (pst is_enter (rev negs))) /\
+                  (canceled = false -> NoDup (active s) ->
+                   negc (bindings s) (active s) (new_transition s mu) negs) /\
+                  (canceled = false -> t_accepted (new_transition s mu) = true)).
+    { split; [apply On|]. split; [apply On|]. split; [exact Nc | exact F4]. }
+    clear On. rename On' into On.
     assert (Kc : same_cfg s s2) by (apply keeps_same_cfg in K; exact K).
     assert (Hcl : clock s2 = clock s) by apply (keeps_clock _ _ K).
     assert (Hac : active s2 = active s) by apply (keeps_active _ _ K).
@@ -3698,6 +4307,163 @@ Proof.
 Qed.
 
 (* ------------------------------------------------------------------ *)
+(* C05b: every bound negotiation handler of an applied transition is   *)
+(* consulted exactly once per binding                                  *)
+(* ------------------------------------------------------------------ *)
+
+Lemma vetoed_own_intro : forall hs x k,
+  vetoed k hs -> is_final_key k = false -> own_key x k = true -> vetoed_own hs x = true.
+Proof.
+  intros hs x k (h & Hh & Hk & Hr) Hf Ho. unfold vetoed_own. apply existsb_exists.
+  exists h. split; [exact Hh|]. rewrite Hk, Hf, Hr, Ho. reflexivity.
+Qed.
+
+Lemma vetoed_rev : forall k l, vetoed k l -> vetoed k (rev l).
+Proof. intros k l (h & Hh & R). exists h. split; [apply in_rev; rewrite rev_involutive; exact Hh | exact R]. Qed.
+
+Lemma allt_In : forall before after b a,
+  In b before -> In a after -> a <> b -> In (HTrans b a) (allt before after).
+Proof.
+  intros before after b a Hb Ha Hn. unfold allt. apply in_flat_map. exists b. split; [exact Hb|].
+  unfold tkeys. apply in_map. apply filter_In. split; [exact Ha|].
+  apply negb_true_iff. apply Nat.eqb_neq. intros E. apply Hn. symmetry. exact E.
+Qed.
+
+Lemma consulted_expected_step : forall s mu s' r rec new,
+  good s -> NoDup (active s) -> (mu_auto mu = true -> mu_type mu = MAdd) ->
+  run_tx s mu = (s', r) -> hlog s' = new ++ hlog s -> txs s' = rec :: txs s ->
+  tx_accepted rec && negb (tx_check rec) = true ->
+  forall k, In k (expected_negotiation (sc s) (topo s) (rev new) rec) ->
+  forall i, count_key (rev new) k i = if defines (bindings s) i k then 1 else 0.
+Proof.
+  intros s mu s' r rec new G Hnd Hty H L Htx Happ k Hk i.
+  destruct (new_transition_facts s mu) as (Tm & Tb & _ & _ & Ttg & Tacc & Tex).
+  destruct (run_tx_outcome _ _ _ _ G H)
+    as (negs & fins & canceled & tgt1 & L' & _ & _ & _ & Bn & (_ & _ & Nc & F4) & _ & A2 & _ & O).
+  rewrite L', app_assoc in L. apply app_inv_tail in L. subst new.
+  destruct O as [(_ & Hx & _)|(rec' & Rb & O)].
+  { rewrite Hx in Htx. exfalso. eapply cons_neq_self. exact Htx. }
+  assert (rec' = rec).
+  { destruct Rb as (Hx & _). rewrite Hx in Htx. inversion Htx. reflexivity. }
+  subst rec'.
+  pose proof Rb as (_ & _ & _ & Hca & Hau & Hck & _ & _ & Hab & _).
+  destruct O as [N|A].
+  { destruct N as (Hcc & _ & _ & _ & _ & Hacc & _). exfalso. rewrite Hacc, Hck in Happ.
+    destruct Hcc as [Hcc|Hcc]; rewrite Hcc in Happ; cbn [negb] in Happ;
+      rewrite ?andb_false_r in Happ; discriminate. }
+  pose proof A as (Hcf & _ & _ & _ & _ & _ & _ & _ & Ff & _ & _ & _ & Htg & _).
+  destruct (Tex (F4 Hcf)) as [Hex Hen].
+  destruct (Nc Hcf Hnd) as (tgt3 & Dl & Al & Cn).
+  assert (Cn' : cons_on (bindings s) (negP (new_transition s mu) tgt3) (fins ++ negs)).
+  { apply (cons_pad_l _ _ (fun k' => is_final_key k' = true) _ fins Cn Ff).
+    intros k' [Hp|[Hp|Hp]] Hf.
+    - apply in_map_iff in Hp. destruct Hp as (a & <- & _). discriminate.
+    - apply in_map_iff in Hp. destruct Hp as (a & <- & _). discriminate.
+    - unfold allt in Hp. apply in_flat_map in Hp. destruct Hp as (b & _ & Hp).
+      unfold tkeys in Hp. apply in_map_iff in Hp. destruct Hp as (a & <- & _). discriminate. }
+  assert (Hcount : forall k', negP (new_transition s mu) tgt3 k' ->
+            (vetoed k' (fins ++ negs) -> False) ->
+            count_key (rev (fins ++ negs)) k' i = if defines (bindings s) i k' then 1 else 0).
+  { intros k' Hp Hnv. rewrite count_key_rev. destruct (Cn' k' Hp) as [V|C]; [contradiction | apply C]. }
+  unfold expected_negotiation in Hk. rewrite Hau, Hab, Hca in Hk.
+  destruct (mu_auto mu) eqn:Eau.
+  - (* auto *)
+    specialize (Hty eq_refl). rewrite Hty in Ttg.
+    set (hs := rev (fins ++ negs)) in *.
+    assert (Hact : forall x, In x (filter (fun x => mem x (mu_called mu) && negb (mem x (active s))
+                       && mem x (resolve (sc s) (topo s) (active s) MAdd (mu_called mu))
+                       && negb (vetoed_own hs x)) (tx_target rec)) ->
+              In x (t_target (new_transition s mu)) /\ ~ In x (active s) /\ vetoed_own hs x = false).
+    { intros x Hx. apply filter_In in Hx. destruct Hx as [_ Hx].
+      apply andb_true_iff in Hx. destruct Hx as [Hx Hv]. apply andb_true_iff in Hx.
+      destruct Hx as [Hx Hf]. apply andb_true_iff in Hx. destruct Hx as [_ Hb].
+      rewrite Ttg. split; [apply mem_In; exact Hf|]. split.
+      - apply mem_false. apply negb_true_iff. exact Hb.
+      - apply negb_true_iff. exact Hv. }
+    assert (Hnov : forall x k', vetoed_own hs x = false -> is_final_key k' = false ->
+              own_key x k' = true -> vetoed k' (fins ++ negs) -> False).
+    { intros x k' Hv Hf Ho V. apply vetoed_rev in V.
+      pose proof (vetoed_own_intro _ x k' V Hf Ho) as Hv'.
+      change (rev (fins ++ negs)) with hs in Hv'. congruence. }
+    apply in_app_or in Hk. destruct Hk as [Hk|Hk].
+    + apply in_map_iff in Hk. destruct Hk as (x & <- & Hx).
+      destruct (Hact x Hx) as (Hxt & Hxb & Hxv).
+      apply Hcount.
+      * right. left. apply in_map. rewrite Hen. apply filter_In. split; [exact Hxt|].
+        apply mem_false in Hxb. rewrite Hxb. reflexivity.
+      * apply (Hnov x); [exact Hxv | reflexivity | cbn; apply Nat.eqb_refl].
+    + apply in_flat_map in Hk. destruct Hk as (b & Hb & Hk).
+      apply in_map_iff in Hk. destruct Hk as (a & <- & Ha).
+      apply filter_In in Ha. destruct Ha as [Ha Hne].
+      destruct (Hact a Ha) as (Hat & Hab' & Hav).
+      apply negb_true_iff, Nat.eqb_neq in Hne.
+      apply Hcount.
+      * right. right. rewrite Tb. apply allt_In; [exact Hb| |exact Hne].
+        destruct (in_dec Nat.eq_dec a tgt3) as [Hi|Hi]; [exact Hi|]. exfalso.
+        destruct (Dl a Hat Hi) as [Hx|[Hx|Hx]].
+        -- rewrite Hex in Hx. apply sort_states_In, diff_In in Hx. tauto.
+        -- apply (Hnov a (HEnter a) Hav eq_refl); [cbn; apply Nat.eqb_refl|].
+           apply vetoed_app. right. exact Hx.
+        -- contradiction.
+      * apply (Hnov a); [exact Hav | reflexivity | cbn; apply Nat.eqb_refl].
+  - (* not auto: nothing returned false *)
+    destruct (A2 eq_refl) as [Htg1 [[_ Hall]|[Hc _]]]; [|congruence].
+    rewrite Htg1, <- Ttg in Htg. cbv iota in Htg.
+    assert (Hnov : forall k', is_final_key k' = false -> vetoed k' (fins ++ negs) -> False).
+    { intros k' Hf (h & Hh & Hkh & Hr). rewrite <- Hkh in Hf.
+      apply in_app_or in Hh. destruct Hh as [Hh|Hh].
+      - rewrite Forall_forall in Ff. specialize (Ff h Hh). congruence.
+      - rewrite Forall_forall in Hall. specialize (Hall h Hh). unfold rettrue in Hall. congruence. }
+    rewrite (Al Hall) in *.
+    apply in_app_or in Hk. destruct Hk as [Hk|Hk]; [|apply in_app_or in Hk; destruct Hk as [Hk|Hk]].
+    + apply in_map_iff in Hk. destruct Hk as (x & <- & Hx). apply Hcount; [|apply Hnov; reflexivity].
+      left. apply in_map. rewrite Hex. apply sort_states_In. rewrite <- Htg. exact Hx.
+    + apply in_map_iff in Hk. destruct Hk as (x & <- & Hx). apply Hcount; [|apply Hnov; reflexivity].
+      right. left. apply in_map. rewrite Hen. unfold expected_enters in Hx.
+      rewrite Hab, Hca, Htg, Tm in *. exact Hx.
+    + apply in_flat_map in Hk. destruct Hk as (b & Hb & Hk).
+      apply in_map_iff in Hk. destruct Hk as (a & <- & Ha).
+      apply filter_In in Ha. destruct Ha as [Ha Hne].
+      apply negb_true_iff, Nat.eqb_neq in Hne.
+      apply Hcount; [|apply Hnov; reflexivity].
+      right. right. rewrite Tb. apply allt_In; [exact Hb | rewrite <- Htg; exact Ha | exact Hne].
+Qed.
+
+(* codes 59: both for non-auto and for auto (MAdd) mutations *)
+Lemma consulted_step_lemma : forall s mu s' r rec,
+  good s -> NoDup (active s) -> (mu_auto mu = true -> mu_type mu = MAdd) ->
+  run_tx s mu = (s', r) -> txs s' = rec :: txs s ->
+  consulted_codes (sc s) (topo s) (bindings s) (rev (hlog s')) rec = [].
+Proof.
+  intros s mu s' r rec G Hnd Hty H Htx. unfold consulted_codes.
+  destruct (tx_accepted rec && negb (tx_check rec)) eqn:Happ; [|reflexivity]. cbn [negb].
+  destruct (run_tx_outcome _ _ _ _ G H)
+    as (negs & fins & canceled & tgt1 & L & _ & _ & _ & _ & _ & _ & _ & _ & O).
+  destruct O as [(_ & Hx & _)|(rec' & Rb & _)].
+  { rewrite Hx in Htx. exfalso. eapply cons_neq_self. exact Htx. }
+  assert (rec' = rec).
+  { destruct Rb as (Hx & _). rewrite Hx in Htx. inversion Htx. reflexivity. }
+  subst rec'.
+  assert (L2 : hlog s' = (fins ++ negs) ++ hlog s) by (rewrite L, app_assoc; reflexivity).
+  pose proof Rb as (_ & _ & _ & _ & _ & _ & _ & _ & _ & Hfrom & Hto & _).
+  assert (Hs : slice (rev (hlog s')) (tx_hfrom rec) (tx_hto rec) = rev (fins ++ negs)).
+  { rewrite Hfrom, Hto, L2. apply (slice_rev_mid hlentry [] (fins ++ negs) (hlog s)). }
+  rewrite Hs.
+  replace (forallb _ (combine (seq 0 (length (bindings s))) (bindings s))) with true; [reflexivity|].
+  symmetry. apply forallb_forall. intros [i b] Hib.
+  apply combine_seq_nth in Hib. destruct Hib as [_ Hn]. rewrite Nat.sub_0_r in Hn.
+  apply forallb_forall. intros k Hk.
+  destruct (existsb (hkey_eqb k) b) eqn:Ed; [|reflexivity]. cbn [negb orb].
+  rewrite (consulted_expected_step _ _ _ _ _ _ G Hnd Hty H L2 Htx Happ k Hk i).
+  unfold defines. rewrite Hn, Ed. reflexivity.
+Qed.
+
+Lemma consulted_codes_slice : forall scm tp bs h1 h2 t,
+  slice h1 (tx_hfrom t) (tx_hto t) = slice h2 (tx_hfrom t) (tx_hto t) ->
+  consulted_codes scm tp bs h1 t = consulted_codes scm tp bs h2 t.
+Proof. intros scm tp bs h1 h2 t H. unfold consulted_codes. rewrite H. reflexivity. Qed.
+
+(* ------------------------------------------------------------------ *)
 (* the order of the handlers of one record follows sorted lists        *)
 (* ------------------------------------------------------------------ *)
 
@@ -3720,7 +4486,7 @@ Lemma ord_step : forall s mu s' r rec,
 Proof.
   intros s mu s' r rec G H Htx.
   destruct (run_tx_outcome _ _ _ _ G H)
-    as (negs & fins & canceled & tgt1 & L & _ & _ & _ & Bn & [On1 On2] & _ & _ & _ & O).
+    as (negs & fins & canceled & tgt1 & L & _ & _ & _ & Bn & (On1 & On2 & _) & _ & _ & _ & O).
   destruct O as [(_ & Hx & _)|(rec' & Rb & O)].
   { rewrite Hx in Htx. exfalso. eapply cons_neq_self. exact Htx. }
   assert (rec' = rec).
@@ -3757,7 +4523,8 @@ Proof. intros scm tp h1 h2 t H. unfold ord_ok. rewrite H. tauto. Qed.
 Definition rec_ok (s : st) (t : txrec) : Prop :=
   tx_hto t <= length (hlog s) /\
   c05_local_codes (sc s) (bindings s) (rev (hlog s)) t = [] /\
-  ord_ok (sc s) (topo s) (rev (hlog s)) t.
+  ord_ok (sc s) (topo s) (rev (hlog s)) t /\
+  consulted_codes (sc s) (topo s) (bindings s) (rev (hlog s)) t = [].
 
 Definition step_ok (scm : schema) (hl : list nat) (t n : txrec) : Prop :=
   match (if triggers_auto hl t then auto_candidates scm (tx_target t) else []) with
@@ -3823,11 +4590,12 @@ Lemma rec_ok_ext : forall s s' x t,
   rec_ok s t -> hlog s' = x ++ hlog s -> sc s' = sc s -> bindings s' = bindings s ->
   topo s' = topo s -> rec_ok s' t.
 Proof.
-  intros s s' x t (Y1 & Y2 & Y3) L Hs Hb Ht. unfold rec_ok. rewrite L, Hs, Hb, Ht.
-  split; [|split].
+  intros s s' x t (Y1 & Y2 & Y3 & Y4) L Hs Hb Ht. unfold rec_ok. rewrite L, Hs, Hb, Ht.
+  split; [|split; [|split]].
   - rewrite app_length. lia.
   - rewrite <- Y2. apply c05_local_codes_slice. apply slice_rev_ext. exact Y1.
   - eapply ord_ok_slice; [|exact Y3]. symmetry. apply slice_rev_ext. exact Y1.
+  - rewrite <- Y4. apply consulted_codes_slice. apply slice_rev_ext. exact Y1.
 Qed.
 
 Lemma chron_ok_snoc : forall scm hl l t n,
@@ -3899,9 +4667,13 @@ Proof.
     + constructor; [|exact Hold].
       destruct (c05_local_step _ _ _ _ _ G1 Hnd1 H Htx2') as [Y1 Y2].
       pose proof (ord_step _ _ _ _ _ G1 H Htx2') as Y3.
+      assert (Hmt : mu_auto mu = true -> mu_type mu = MAdd).
+      { intros Hx. destruct (lastc sch hl (txs s)); [congruence | rewrite Hmu; reflexivity]. }
+      pose proof (consulted_step_lemma _ _ _ _ _ G1 Hnd1 Hmt H Htx2') as Y4.
       unfold rec_ok. rewrite Hs2, Hb2, Ht2.
       rewrite (keeps_sc _ _ K), (keeps_bindings _ _ K) in Y1.
-      rewrite (keeps_sc _ _ K), (keeps_topo _ _ K) in Y3. tauto.
+      rewrite (keeps_sc _ _ K), (keeps_topo _ _ K) in Y3.
+      rewrite (keeps_sc _ _ K), (keeps_topo _ _ K), (keeps_bindings _ _ K) in Y4. tauto.
     + cbn [rev]. destruct (txs s) as [|t older] eqn:Et.
       * cbn. tauto.
       * cbn [rev] in *. apply chron_ok_snoc; [exact Hc|].
@@ -4195,7 +4967,7 @@ Proof.
   cbn. intros t Ht. apply in_rev in Ht.
   destruct (run_final_inv _ _ _ _ _ _ _ _ _ _ _ _ F E) as [I _].
   destruct I as (I0 & I1 & _ & _ & _ & _ & Hr & _).
-  rewrite Forall_forall in Hr. destruct (Hr t Ht) as (_ & _ & Y). rewrite I0, I1 in Y. exact Y.
+  rewrite Forall_forall in Hr. destruct (Hr t Ht) as (_ & _ & Y & _). rewrite I0, I1 in Y. exact Y.
 Qed.
 
 Lemma phase_codes_no57 : forall sch order ord full c,
